@@ -21,6 +21,10 @@ R22f delivered unchanged: RegexNamedArgumentParser.parse / validate apply the pa
      or a pattern compiled from it in the constructor) to their own parameter, neither rewritten (opstatic/matchsite.py), and
      parse returns the groupdict of that very match - a normalisation of text or pattern before matching delivers groups cut
      from a different string and widens the accepted language.
+R22g the reader ends a group where the group ends: RegexNumberOptional wraps the pattern of RegexNumber in a further group, so the unit
+     group's closing parenthesis is not the last one of the pattern. RegexNamedArgumentParser.get_units must not bound the unit list with
+     the *last* ')' (`rindex`) - it would report `h)` + the rest of the pattern as a unit of the built-in Pause and Hold commands - but with the group's own
+     (first unescaped) one; the same holds for any reader of a named group.
 Decides the template languages over the abstract alphabet and that matching is applied to the untouched argument.
 """
 from __future__ import annotations
@@ -46,7 +50,7 @@ def show(word: str) -> str:
     return "".join(NAMES.get(ch, ch) for ch in word) or "<empty>"
 
 
-def run(ctx) -> None:
+def _run_main(ctx) -> None:
     prog = ctx.prog
     for r, d in [("R22a", "categorical template language == E | A(+A)*"), ("R22b", "numeric template language == documented language"),
                  ("R22c", "interpolated lists are escaped"), ("R22d", "reader markers occur in writer templates"),
@@ -193,3 +197,45 @@ def run(ctx) -> None:
                                  f"unit that contains {sep!r} (written as '\\{sep}' in the pattern) is reported as two entries")
                     else:
                         ctx.ok("R22e", inst)
+
+
+def _r22g(ctx) -> None:
+    prog = ctx.prog
+    ctx.rule("R22g", "a named group is read up to its own closing parenthesis")
+    rx = prog.module(RX)
+    wrappers = []
+    for fn in rx.functions.values():
+        for r in walk_no_nested(fn.node):
+            if isinstance(r, ast.Return) and isinstance(r.value, ast.JoinedStr):
+                parts = r.value.values
+                # an f-string that puts a call result / local built from another template between "(" and ")"
+                txt = "".join(p.value if isinstance(p, ast.Constant) and isinstance(p.value, str) else "\0" for p in parts)
+                if "(\0)" in txt:
+                    wrappers.append(fn.name)
+    if not wrappers:
+        ctx.ok("R22g", "no template wraps another template in a group", trivial=True)
+        return
+    rd = prog.cls("openpectus.lang.exec.uod:RegexNamedArgumentParser")
+    n = 0
+    for mname in ("get_units", "get_exclusive_options", "get_additive_options"):
+        m = rd.methods.get(mname)
+        if m is None:
+            raise AnchorError(f"RegexNamedArgumentParser.{mname} missing")
+        ctx.analysed(m)
+        n += 1
+        last = [c for c in walk_no_nested(m.node) if isinstance(c, ast.Call) and call_attr(c) in ("rindex", "rfind", "rsplit", "rpartition")
+                and c.args and isinstance(c.args[0], ast.Constant) and c.args[0].value == ")"]
+        inst = f"RegexNamedArgumentParser.{mname}: the group is not bounded by the pattern's last ')'"
+        if not last:
+            ctx.ok("R22g", inst)
+        else:
+            ctx.fail("R22g", m, last[0], inst, f"`{norm(last[0])}` takes the last ')' of the whole pattern, but {', '.join(wrappers)} wrap(s) the number pattern "
+                     "in a further group: RegexNumberOptional(units=['s','min','h']) - the pattern of the built-in Pause and Hold - reports the "
+                     "units ['s', 'min', 'h)\\s*$'], and a uod command built on it publishes the example `Area: 0.5 dm2)\\s*$` that its own parser rejects")
+    if n < 3:
+        raise AnchorError("R22g: reader methods not found")
+
+
+def run(ctx) -> None:
+    _run_main(ctx)
+    _r22g(ctx)
